@@ -6,7 +6,7 @@ import json
 from vp.runner import (Result, Deadline, exc_site, time_limit,
                        CaseTimeout)
 from vp.gen import docs as gdocs, paths as gpaths
-from vp.model import query as mq
+from vp.model import query as mq, edit as medit
 from vp.model.compare import Unspecified
 from vp.model.plain import (canon, cscalar, positions, snapshot, is_map,
                             is_seq, is_set, is_container)
@@ -29,6 +29,7 @@ RULE = ("Purity E1: every document <= 3 nodes plus a 64-document family of "
         "fully consumed required query and - when the reference evaluator "
         "says the path exists with no dead branch - the optional query. "
         "Creation E1: every document <= 3 nodes x every container or null "
+        "(for a Set: naming a missing member adds that member only) "
         "prefix x missing tails of 1-3 key/index steps (index = len .. "
         "len+2), through set_value() and get_nodes(default_value=), each on "
         "a fresh copy: afterwards the path must resolve to exactly one node "
@@ -217,6 +218,9 @@ def creation_cases(text, res, dl):
                 not is_container(node) and not is_set(parent):
             _beneath_scalar(text, path, node, res)
             continue
+        if is_set(node) and parent is not None:
+            _set_member_creation(text, path, node, res)
+            continue
         if not (is_map(node) or is_seq(node) or (node is None and parent
                                                  is not None)):
             continue
@@ -255,6 +259,70 @@ def creation_cases(text, res, dl):
         if dl.expired():
             res.truncated = True
             return
+
+
+def _set_member_creation(text, path, node, res):
+    """Naming a missing member of a Set (s.n = 'n') adds that member and
+    changes nothing else - in particular the Set's other members stay."""
+    from yamlpath.exceptions import YAMLPathException
+    base = []
+    for step in path:
+        if step[0] == "i":
+            base.append(("index", step[1]))
+        elif len(step) > 2 and str(step[2]) != "":
+            base.append(("key", str(step[2])))
+        else:
+            return
+    member = "n"
+    if any(str(m) == member for m in node):
+        return
+    for sep in (".", "/"):
+        for entry in ("set", "get-default"):
+            doc, _ = gdocs.load(text)
+            target = _node_at(doc, path)
+            want = canon(doc)
+            ptext = gpaths.render(base + [("key", member)], sep)
+            case = {"doc": text, "path": ptext, "entry": entry,
+                    "steps": [["key", member]], "set-member": True}
+            res.evaluations += 1
+            try:
+                proc = real.processor(doc)
+                if entry == "set":
+                    proc.set_value(real.ypath(ptext), member)
+                else:
+                    for _ in proc.get_nodes(real.ypath(ptext),
+                                            mustexist=False,
+                                            default_value=member):
+                        pass
+            except YAMLPathException as exc:
+                res.fail({"clause": "creatable-path-is-created",
+                          "where": "set-member", "entry": entry}, case,
+                         str(exc))
+                continue
+            except Exception as exc:
+                res.label("crash(see C15):%s" % type(exc).__name__)
+                continue
+            # expected: the same document with one more member in that Set
+            def add_member(c, p):
+                if not p:
+                    return ["T", c[1] + [cscalar(member)]]
+                step = p[0]
+                if c[0] == "M":
+                    return ["M", [[k, add_member(v, p[1:])
+                                   if tuple(k) == tuple(step[1:]) else v]
+                                  for k, v in c[1]]]
+                return ["L", [add_member(v, p[1:]) if i == step[1] else v
+                              for i, v in enumerate(c[1])]]
+            expected = add_member(want, list(path))
+            got = canon(doc)
+            if medit.sorted_set_canon(got) != medit.sorted_set_canon(expected):
+                res.fail({"clause": "only-the-missing-tail-is-added",
+                          "where": "set-member", "entry": entry}, case,
+                         "expected %s\ngot      %s" % (json.dumps(expected),
+                                                       json.dumps(got)))
+                continue
+            res.nontrivial()
+            res.label("created:set-member:" + entry)
 
 
 def _beneath_scalar(text, path, node, res):
@@ -504,6 +572,10 @@ def run_shard(shard):
 
 def replay(case):
     res = Result()
+    if case.get("set-member"):
+        creation_cases(case["doc"], res, Deadline(120))
+        return [r for _, recs in res.failures.values() for r in recs
+                if r["case"].get("set-member")]
     if case.get("entry") in ("set", "get-default"):
         doc, ok = gdocs.load(case["doc"])
         from yamlpath import YAMLPath
